@@ -2,7 +2,7 @@
    accounting.  Statements only; proofs live in C13/Proofs*.v.  Model: C13/Model.v
    (transcription of psutil/_pslinux.py and psutil/__init__.py), specification:
    C13/Spec.v (kernel records, printers k_statm / k_smaps / k_rollup, demanded answers). *)
-From PV Require Import C13.Spec C13.Lib C13.ProofsMaps C13.ProofsSums C13.ProofsRollup C13.ProofsGroup C13.Proofs Gen.C13_Tables.
+From PV Require Import C13.Spec C13.Lib C13.ProofsMaps C13.ProofsSums C13.ProofsRollup C13.ProofsGroup C13.ProofsHist C13.Proofs Gen.C13_Tables.
 
 (* memory_info(): the seven page counts of statm (size resident shared text lib data dt, alias
    vms rss shared trs lrs drs dt) times the page size, as pmem(rss, vms, shared, text, lib,
@@ -209,6 +209,26 @@ Theorem C13_percent_kernel : forall ex pagesize r ms name total,
   = spec_percent name (spec_full pagesize r ms) total.
 Proof. exact percent_kernel. Qed.
 Print Assumptions C13_percent_kernel.
+
+(* "total physical memory" over time: for every history of virtual_memory() calls, changes of
+   the kernel's MemTotal and memory_percent() calls in one interpreter, each memory_percent
+   divides by the total reported by the LAST virtual_memory() call (its own, when there was
+   none before) -- the cache _TOTAL_PHYMEM is refreshed by every call *)
+Theorem C13_percent_history_cache : forall full, length full = 10%nat ->
+  forall ops cache kernel, hist_ok ops = true -> 0 < kernel ->
+  (forall c, cache = Some c -> 0 < c) ->
+  run_hist (Val (firstn 7 full)) (Val full) cache kernel ops = spec_hist full cache kernel ops.
+Proof. exact hist_spec. Qed.
+Print Assumptions C13_percent_history_cache.
+
+Theorem C13_percent_history : forall ex pagesize r ms kernel0 ops,
+  wf_statm r = true -> forallb (wf_kernel ex) ms = true -> hist_ok ops = true -> 0 < kernel0 ->
+  run_hist (with_file Alive (FContent (k_statm r)) (memory_info pagesize))
+           (memory_full_info Alive pagesize false FENOENT (FContent (k_smaps ms)) (FContent (k_statm r)))
+           None kernel0 ops
+  = spec_hist (spec_full pagesize r ms) None kernel0 ops.
+Proof. exact percent_history. Qed.
+Print Assumptions C13_percent_history.
 
 (* the record layouts of the code as it is now (dumped into coq/Gen/C13_Tables.v on every run)
    are the documented ones, and the model and the specification use them: pmem, pfullmem =
